@@ -136,4 +136,16 @@ theorem the_state :
     fieldsOf "ConIterValues" = [["con_iter: &'aC"]] ∧ fieldsOf "ConIterIdsAndValues" = [["con_iter: &'aC"]] := by
   decide +kernel
 
+/-- **the `From` conversions are the constructors**: `ConIterOfX::from(source)` (and `source.into()`) is `Self::new(source)` for the
+five implementors, so everything proved about `new` / `con_iter` / `into_con_iter` (`GenThms/Ctor.lean`) holds for an iterator built
+this way; the two views are built from a reference and nothing else -/
+theorem the_conversions :
+    fnsOf "frombody" "ConIterOfSlice" = [["Self::new(slice)"]] ∧ fnsOf "frombody" "ConIterOfVec" = [["Self::new(vec)"]] ∧
+    fnsOf "frombody" "ConIterOfArray" = [["Self::new(array)"]] ∧ fnsOf "frombody" "ConIterOfRange" = [["Self::new(range)"]] ∧
+    fnsOf "frombody" "ConIterOfIter" = [["Self::new(iter)"]] ∧
+    fnsOf "frombody" "ConIterValues" = [["Self{con_iter}"]] ∧ fnsOf "frombody" "ConIterIdsAndValues" = [["Self{con_iter}"]] ∧
+    sameSet (implsOf "From") ["ConIterOfSlice", "ConIterOfVec", "ConIterOfArray", "ConIterOfRange", "ConIterOfIter", "ConIterValues",
+      "ConIterIdsAndValues"] = true := by
+  decide +kernel
+
 end Orx.GenThms.Surface
